@@ -9,6 +9,7 @@ Bilinearity of the pairing itself is NOT proved (see meta "partial").
 -/
 import DosModel.Proofs.Bn256FinalExp
 import DosModel.Proofs.Bn256Consts
+import DosModel.Proofs.Bn256FinalExpConcrete
 
 namespace Dos.Props.C10FinalExp
 open Dos Dos.Bn256
@@ -50,5 +51,37 @@ theorem concrete_is_generic (x : F12) :
     Bn256.finalExponentiation x = finalExponentiationG frobConsts uParam x ∧
     Bn256.Fp12.frobenius x = Fp12.frobeniusG frobConsts x ∧
     Bn256.Fp12.frobeniusP2 x = Fp12.frobeniusP2G frobConsts x := ⟨rfl, rfl, rfl⟩
+
+
+/-! ### the IMPLEMENTED final exponentiation and check (Montgomery gfP, regenerated constants) -/
+
+/-- **the hypothesis `FrobConsts.Good` holds for the code's constants**: the seven regenerated constants, decoded
+from Montgomery form into the field ZMod p, satisfy the six relations (kernel evaluation in Montgomery arithmetic
+on reduced values, carried along the decoding homomorphism of `gfP_is_prime_field` lifted to gfP2) -/
+theorem frobConsts_of_the_code_are_good : frobConstsFp.Good ∧ frobConstsFp = frobConstsR.map decR ∧
+    frobConstsR.map valF = frobConsts := ⟨frobConstsFp_good, rfl, rfl⟩
+
+/-- **the implemented final exponentiation** (the function the driver runs, `Bn256.finalExponentiation`) keeps
+reduced gfP12 values reduced, decodes to the generic final exponentiation over ZMod p at the decoded constants
+(naturality of the transcribed code along "forget reducedness" and "decode"), and is multiplicative -/
+theorem finalExponentiation_implemented (x y : F12) (hx : Red12 x) (hy : Red12 y) :
+    Red12 (Bn256.finalExponentiation x) ∧
+    dec12 (Bn256.finalExponentiation x) = finalExponentiationG frobConstsFp uParam (dec12 x) ∧
+    Bn256.finalExponentiation (Fp12.mul x y) =
+      Fp12.mul (Bn256.finalExponentiation x) (Bn256.finalExponentiation y) :=
+  ⟨(finalExp_dec x hx).1, (finalExp_dec x hx).2, finalExp_concrete_mul x y hx hy⟩
+
+/-- **the implemented PairingCheck**: whenever the Miller values are reduced gfP12 values (every gfP operation
+returns reduced values — `gfP_is_prime_field` — but this is not carried through the 265-step Miller loop here:
+hypothesis), `pairingCheck` is true exactly when the product in F_p¹² of the decoded pairing values
+`optimalAte(qᵢ, pᵢ)` is one; pairs with an identity contribute one wherever they stand in the list -/
+theorem pairingCheck_implemented (ps : List (G1J × G2J)) (hm : ∀ pq ∈ ps, Red12 (miller pq.2 pq.1)) :
+    pairingCheck ps = true ↔ (ps.map fun pq => dec12 (optimalAte pq.2 pq.1)).prod = 1 :=
+  pairingCheck_concrete ps hm
+
+set_option maxRecDepth 1000000 in
+/-- the hypothesis is satisfiable: the Miller value of the generators is reduced -/
+theorem miller_generators_reduced : Red12 (miller twistGen curveGen) := by
+  unfold Red12 Red6 Red2; decide +kernel
 
 end Dos.Props.C10FinalExp
